@@ -279,6 +279,8 @@ Inductive label :=
                                        concurrent Shutdown() cleared the pointer: the pool's critical section runs after Shutdown()'s
                                        final section (seen under the controlled scheduler; it answers B_BAD_ARGUMENT) *)
 
+Definition sd_done (p : sdpc) : bool := match p with SdDone => true | _ => false end.
+
 Definition in_unreg (s : st) (c : client) : bool :=
   match tget c (s_unreg s) with Some _ => true | None => false end.
 
@@ -323,8 +325,10 @@ Definition step (s : st) (l : label) : option (st * list event) :=
     | None => None
     end
   | LUnregBegin c =>
+    (* SetThreadPool(NULL) calls UnregisterClient() when its (unsynchronised) test of _threadPool finds the pointer set;
+       the second disjunct is the call whose test preceded Shutdown()'s final section, which cleared the pointer *)
     if in_unreg s c then None
-    else if lmem c (s_cl s) then Some (unreg_begin s c) else None
+    else if lmem c (s_cl s) || sd_done (s_sd s) then Some (unreg_begin s c) else None
   | LUnregWake c =>
     match tget c (s_unreg s) with
     | Some (UWaiting true) => Some (set_unreg s (tset c UFinal (s_unreg s)), [])
